@@ -10,7 +10,7 @@ SPEC = {
     "id": "C02",
     "props_module": "NDB.Props.C02",
     "corr_modules": ["NDB.Corr.Crash"],
-    "theorems": ["C02_recovered_prefix", "C02_ckpt_backed"],
+    "theorems": ["C02_recovered_prefix", "C02_ckpt_backed", "C02_node_table"],
     "allowed_axioms": [],
     "harness_pkg": "hx_crash",
     "harness_bin": "c02",
